@@ -12,7 +12,10 @@ PROPS["C12"] = prop(
     "statement. Exhaustive over single-bit flips and truncations of every issued secret, sampled otherwise. "
     "TestC12TokenConcurrent/TestC12TokenConcurrentRace present genuine and forged tokens (signed fields of one token + signature of another, single-bit changes of the signed fields under the original signature) and issue fresh tokens "
     "from 2-8 goroutines on the one shared authenticator: no forgery may ever be accepted, every genuine or freshly issued token must yield exactly its issued record, tokens issued under load must verify afterwards on the issuer and on a "
-    "restarted server; under -race any report of unsynchronised access to the authenticator's key state is a violation (interleavings are sampled from the Go scheduler, 2000/400 calls per goroutine).",
+    "restarted server; under -race any report of unsynchronised access to the authenticator's key state is a violation (interleavings are sampled from the Go scheduler, 2000/400 calls per goroutine). "
+    "TestC12Basic draws a quarter of its passwords 73-90 bytes long (bcrypt's input limit is 72) and attempts which share such a password's first 72 bytes and differ afterwards (one byte changed behind the limit, "
+    "cut at the limit, another tail, one character dropped or appended): if AddRecord / UpdateRecord ACCEPTED the long password, every such attempt must be refused (signature authenticated:long-password-prefix); "
+    "if it was refused nothing more is demanded.",
     "Trusts the reference models in harness/c12*/c12_test.go, the Go scheduler to produce overlapping calls and the Go race detector (concurrent units; real clock, lifetimes >= 1 h), Go's crypto/hmac (used by the reference too), testing/synctest's virtual "
     "clock and the fake store adapters (PCache / auth records written from the MySQL adapter's SQL). The authenticators are called directly, except in "
     "TestC12WTokenSession, which presents issued, altered, truncated, expired and restricted tokens to a live session of the world engine "
@@ -24,14 +27,15 @@ PROPS["C12"] = prop(
      Unit("TestC12APIKey", "server", quick=5000, thorough=60000, shards_quick=4, shards_thorough=16, fuzz="FuzzC12APIKey", fuzztime=60),
      Unit("TestC12LongPollGate", "server", quick=600, thorough=20000, shards_quick=4, shards_thorough=16),
      Unit("TestC12Code", "server/auth/code", quick=12000, thorough=200000, shards_quick=4, shards_thorough=16),
-     Unit("TestC12Basic", "server/auth/basic", quick=8, thorough=300, shards_quick=8, shards_thorough=16),
+     Unit("TestC12Basic", "server/auth/basic", quick=12, thorough=300, shards_quick=8, shards_thorough=16),
      Unit("TestC12WTokenSession", "server", quick=1500, thorough=60000, shards_quick=4, shards_thorough=16)],
     ["token serial numbers are generated in 0..65535 (the signed field is 16 bits wide) and expiry stays below 2106 (32-bit seconds)",
      "two configured HMAC keys that pad/hash to the same 64-byte block are the same key (RFC 2104), not a 'foreign key'",
      "the last two seconds of a token's validity are unspecified (one-second field resolution plus the verifier's one-second margin)",
      "a correctly signed API key with algorithm version other than 1 may be refused; if accepted its root flag must be the issued one",
      "reset-code lifetime (expire_in) is not part of the statement: a right guess later than expire_in after the request is unspecified",
-     "a password longer than 72 bytes (bcrypt limit) may be refused at creation; the model follows the actual answer there",
-     "an attempt that extends a registered password of exactly 72 bytes contains the whole secret; bcrypt ignores the extra bytes and the "
+     "a password longer than 72 bytes (bcrypt limit) may be refused at creation or at a password change; the model follows the actual answer there, but a long password which was accepted is "
+     "the password to its last byte: an attempt sharing only its first 72 bytes is a wrong password",
+     "only an attempt that extends a registered password of exactly 72 bytes contains the whole secret; bcrypt ignores the extra bytes and the "
      "case is recorded (class auth:extension-of-72-byte-password) but not judged, by analogy with the extended-token carve-out of DESIGN.md section 4"],
 )
